@@ -152,6 +152,10 @@ def _measure(case):
         text = chain_text(case['pos'], case['a'], case['b'], case.get('long', False))
     elif case['mode'] == 'default':
         text = default_text(case['n'], case['quote'])
+    elif case['mode'] == 'enum-comment':
+        # n enumerators with long names and comments between them and before the closing brace
+        names = ['kEnumerator%02dLongName' % i for i in range(case['n'])]
+        text = 'enum class Big { %s /* last one */ };' % ', '.join('%s /* c%d */' % (nm, i) if i % 2 else nm for i, nm in enumerate(names))
     else:
         text = '\n'.join(KINDS[case['kind']](i) for i in range(case['n']))
     try:
@@ -202,15 +206,24 @@ def run(ctx):
             for b in range(1, Ddeep + 1):
                 if long_names or b > Dmax:
                     deep.append({'mode': 'chain', 'pos': pos, 'a': 0, 'b': b, 'long': long_names})
+    # namespace chains with a class at the bottom, deeper
+    for pos in ('return', 'property'):
+        for a in range(Dmax, Ddeep + 1):
+            deep.append({'mode': 'chain', 'pos': pos, 'a': a, 'b': 1, 'long': False, 'axis': 'ns'})
+    ecm = [{'mode': 'enum-comment', 'n': n} for n in (2, 3, 4, 6, 8, 12, 16, 24, 32)]
     # default-value expressions of growing length
     dflt = [{'mode': 'default', 'n': n, 'quote': q} for q in (False, True) for n in (8, 12, 16, 20, 24, 32, 48, 64)]
     res = ctx.map(measure, cases, chunksize=4)
     resh = ctx.map(measure, hist, chunksize=4)
-    resd = ctx.map(measure, deep + dflt, chunksize=1)
+    resd = ctx.map(measure, deep + dflt + ecm, chunksize=1)
     dsteps = {}
+    nsteps = {}
     for c, r in resd:
         if 'steps' in r:
-            dsteps[(c['mode'], c.get('pos'), c.get('long'), c.get('quote'), c.get('b', c.get('n')))] = r['steps']
+            if c.get('axis') == 'ns':
+                nsteps[(c['pos'], c['a'])] = r['steps']
+            else:
+                dsteps[(c['mode'], c.get('pos'), c.get('long'), c.get('quote'), c.get('b', c.get('n')))] = r['steps']
     steps = {}
     cpu_total = 0.0
     for c, r in res:
@@ -266,6 +279,28 @@ def run(ctx):
                                            '%d -> %d activations' % (r, RATIO_MAX, b, b + 1, pos, 'long' if long_names else 'short', s0, s1),
                                       {'pair': [{'mode': 'chain', 'pos': pos, 'a': 0, 'b': b, 'long': long_names},
                                                 {'mode': 'chain', 'pos': pos, 'a': 0, 'b': b + 1, 'long': long_names}], 'limit': RATIO_MAX, 'sig': sig})
+    for pos in ('return', 'property'):
+        for a in range(max(FROM_DEPTH, Dmax), Ddeep):
+            s0, s1 = nsteps.get((pos, a)), nsteps.get((pos, a + 1))
+            if not s0 or not s1:
+                continue
+            nratios += 1
+            if s1 / s0 > RATIO_MAX:
+                sig = 'C19|super-polynomial|deep-namespace-chain|%s' % pos
+                ctx.add_violation(sig, 'parsing cost grows by a factor %.2f (> %.2f) from namespace depth %d to %d (a class at the bottom, position %s): '
+                                       '%d -> %d activations' % (s1 / s0, RATIO_MAX, a, a + 1, pos, s0, s1),
+                                  {'pair': [{'mode': 'chain', 'pos': pos, 'a': a, 'b': 1}, {'mode': 'chain', 'pos': pos, 'a': a + 1, 'b': 1}],
+                                   'limit': RATIO_MAX, 'sig': sig})
+    for n0, n1 in ((2, 4), (3, 6), (4, 8), (6, 12), (8, 16), (12, 24), (16, 32)):
+        s0, s1 = dsteps.get(('enum-comment', None, None, None, n0)), dsteps.get(('enum-comment', None, None, None, n1))
+        if not s0 or not s1:
+            continue
+        nratios += 1
+        if s1 > 3.0 * s0:
+            sig = 'C19|super-linear-in-enumerator-count|comments-between-enumerators'
+            ctx.add_violation(sig, 'doubling the number of enumerators (%d -> %d, comments between them) multiplies the parsing cost by %.1f '
+                                   '(%d -> %d activations)' % (n0, n1, s1 / s0, s0, s1),
+                              {'pair': [{'mode': 'enum-comment', 'n': n0}, {'mode': 'enum-comment', 'n': n1}], 'limit': 3.0, 'sig': sig})
     for q in (False, True):
         for n0, n1 in ((8, 16), (12, 24), (16, 32), (24, 48), (32, 64)):
             s0, s1 = dsteps.get(('default', None, None, q, n0)), dsteps.get(('default', None, None, q, n1))
@@ -294,10 +329,10 @@ def run(ctx):
                                   {'pair': [{'mode': 'size', 'kind': kind, 'n': 25}, {'mode': 'size', 'kind': kind, 'n': n}],
                                    'limit': 2.0 * n / 25, 'sig': sig})
     return {
-        'evaluations': len(cases) + len(hist) + len(deep) + len(dflt),
-        'distinct_nontrivial': len(steps) + len(dsteps),
+        'evaluations': len(cases) + len(hist) + len(deep) + len(dflt) + len(ecm),
+        'distinct_nontrivial': len(steps) + len(dsteps) + len(nsteps),
         'rule': 'all (namespace depth a, template depth b) with a + b <= %d in 6 type positions, pure template chains to depth %d '
-                '(short and long type names), files of n in %s declarations of 8 kinds, default expressions of 8..64 characters; '
+                '(short and long type names), files of n in %s declarations of 8 kinds, default expressions of 8..64 characters, namespace chains to the same depth, enums of 2..32 enumerators with comments between them; '
                 'cost = function activations in pyparsing and gtwrap.interface_parser; %d consecutive-depth / size ratios evaluated'
                 % (Dmax, Ddeep, sizes, nratios),
         'samples': [chain_text('argument', 2, 3), {'worst_ratio': round(worst[0], 3), 'at': worst[1]}],
